@@ -59,6 +59,12 @@ impl<'a> Gen<'a> {
             27 => Some(("-dash.lalrpop", true)),
             28 => Some(("x.lalrpopx", false)),
             29 => Some(("xlalrpop", false)),
+            30 => Some(("twice.lalrpop.lalrpop", true)),
+            31 => Some((".hidden.lalrpop", true)),
+            32 => Some(("per%cent#.lalrpop", true)),
+            33 => Some(("em\u{2003}space.lalrpop", true)),
+            34 => Some(("wide\u{3000}space.lalrpop", true)),
+            35 => Some(("semi;colon&amp.lalrpop", true)),
             _ => None,
         };
         if let Some((s, g)) = special {
@@ -164,6 +170,17 @@ pub fn world(pool: &Pool, seed: u64, n: u64) -> Scenario {
             1 => {
                 // link to a grammar under a name that does not match
                 g.ops.push(Op::Symlink { path: format!("proj/{}", join(&host, &format!("lnk{li}.txt"))), target: format!("{{ROOT}}/{ext_file}") });
+                // and a link with a RELATIVE target (`../..` up to the world root) under a grammar name
+                let ups = "../".repeat(host.split('/').filter(|c| !c.is_empty()).count() + 1);
+                let p = join(&host, &format!("rel{li}.lalrpop"));
+                g.ops.push(Op::Symlink { path: format!("proj/{p}"), target: format!("{ups}{ext_file}") });
+                g.grammars.push(p);
+                // and a link to a grammar that is itself inside the project (two documented outputs)
+                if let Some(orig) = g.grammars.iter().find(|x| !x.contains("lnk") && !x.contains("rel") && !x.contains(' ')).cloned() {
+                    let p2 = join(&host, &format!("dup{li}.lalrpop"));
+                    g.ops.push(Op::Symlink { path: format!("proj/{p2}"), target: format!("{{ROOT}}/proj/{orig}") });
+                    g.grammars.push(p2);
+                }
             }
             2 | 3 => {
                 if let Some(d) = ext_dirs.get(g.rng.below(ext_dirs.len().max(1) as u64) as usize) {
@@ -301,7 +318,7 @@ pub fn world(pool: &Pool, seed: u64, n: u64) -> Scenario {
             let mut args: Vec<String> = Vec::new();
             if g.rng.chance(2, 3) {
                 args.push("-o".into());
-                args.push("cli out".into());
+                args.push(if g.rng.chance(1, 3) { "cli out/".into() } else { "cli out".into() });
             }
             if report {
                 args.push("--report".into());
